@@ -18,12 +18,29 @@
       afterwards ([C06_new_entities], the `_partial` suffix in BatchProofs refers to the additional
       hypothesis that a lock bit is available; without it the statement is refuted:
       [C06_new_entities_needs_a_lock_bit]).
+    - WHOLE OPERATIONS (BatchOps.v), on an unlocked world with a free lock bit and without observers
+      for the consulted events: ExchangeBatch/AddBatch/RemoveBatch ([C06_exchange_batch]) moves
+      exactly the live entities of the tables the filter selected at call time, gives each the
+      single-entity Exchange postcondition with the callback's values written (zero-sized
+      components read 0), leaves every other entity and every dead handle untouched, logs exactly
+      one callback per moved entity (NoDup), unlocks the world; if a selected non-empty table is not
+      ready (has a component of add / lacks one of rem) the call fails BEFORE anything moved
+      (content unchanged; the lock bit stays taken, as in the code); RemoveEntities
+      ([C06_remove_entities]): exactly the selected entities die (their handles are rejected
+      afterwards), all others unchanged, one callback each iff a callback was passed; NewBatch
+      ([C06_new_batch]): n fresh handles with exactly the given components, callback values or
+      zero; the selected tables are exactly the tables of the entities matching the filter
+      ([C06_selection_uncached], [C06_selection_cached]; completeness needs every non-empty table
+      to be listed by its archetype, stated as hypothesis [tables_listed]).
+      The hypothesis "get_batch_tables succeeds" cannot be replaced by "the filter exists":
+      [C06_filter_exists_is_not_enough] (an archetype left without table by a rejected creation makes
+      the selection itself fail).
     Not covered by theorems (tied by the `batch` correspondence stream, op codes 12, 30, 31, 32
-    with and without callbacks, with independent oracle [proj_batch]): the selection of the tables
-    by the filter at call time for the whole-operation wrappers, RemoveEntities, SetRelationsBatch,
+    with and without callbacks, with independent oracle [proj_batch]): SetRelationsBatch, batch
+    operations with observers registered for the consulted events (ordering of callbacks: C09),
     and batch operations in worlds with relation components. *)
 From Ark Require Import Model.Base Model.Mask Model.Pool Model.Util Model.World Model.Run.
-From Ark Require Import Proofs.WF Proofs.StorageA Proofs.StorageBDefs Proofs.StorageB_sb2 Proofs.ViewProofs Proofs.BatchProofs Properties.Common.
+From Ark Require Import Proofs.WF Proofs.StorageA Proofs.StorageBDefs Proofs.StorageB_sb2 Proofs.ViewProofs Proofs.CacheProofs Proofs.BatchProofs Proofs.BatchOps Properties.Common.
 
 Theorem C06_table_move_is_per_entity_exchange : forall s otid ntid ot nt oa na, St s -> otid <> ntid ->
   nth_error (w_tables s) otid = Some ot -> nth_error (w_tables s) ntid = Some nt ->
@@ -95,6 +112,79 @@ Theorem C06_new_entities_needs_a_lock_bit :
        match w_new_entities n true s with Ok _ _ => True | Err _ _ => False end).
 Proof. exact new_entities_spec_refuted. Qed.
 
+(** ** Whole operations *)
+
+Theorem C06_exchange_batch : forall s fi tabs add rem vals,
+  St s -> is_locked s = false -> lock_lock (w_lock s) <> None ->
+  (add <> [] \/ rem <> []) -> registered s add ->
+  (rem <> [] -> has_obs s EvRemoveComponents = false) -> (add <> [] -> has_obs s EvAddComponents = false) ->
+  (forall cv, In cv vals -> In (fst cv) add) ->
+  get_batch_tables fi [] s = Ok tabs s ->
+  match w_exchange_batch fi [] add rem [] vals s with
+  | Ok _ s' =>
+      (forall tid t, In tid tabs -> nth_error (w_tables s) tid = Some t -> t_len t <> 0 -> bo_ready add rem (t_ids t)) /\
+      St s' /\ is_locked s' = false /\
+      (forall e, live s e = true -> bo_in_tabs s tabs e ->
+         live s' e = true /\
+         forall c, val s' e c = if memb c add then Some (bo_cbval s vals c) else if memb c rem then None else val s e c) /\
+      (forall e, live s e = true -> ~ bo_in_tabs s tabs e -> live s' e = true /\ forall c, val s' e c = val s e c) /\
+      (forall e, live s e = false -> live s' e = false) /\
+      (exists es, w_log s' = w_log s ++ map (fun e => [101%Z; Zn (fst e); Z.of_N (snd e)]) es /\ NoDup es /\
+         forall e, In e es <-> (live s e = true /\ bo_in_tabs s tabs e)) /\
+      w_pool s' = w_pool s /\ frame_user s s'
+  | Err _ s' =>
+      (exists tid t, In tid tabs /\ nth_error (w_tables s) tid = Some t /\ t_len t <> 0 /\ ~ bo_ready add rem (t_ids t)) /\
+      St s' /\ content_same s s' /\ is_locked s' = true /\ w_log s' = w_log s /\ w_pool s' = w_pool s /\ frame_user s s'
+  end.
+Proof. exact exchange_batch_spec. Qed.
+
+Theorem C06_remove_entities : forall s fi tabs fn,
+  St s -> is_locked s = false -> (fn = true -> lock_lock (w_lock s) <> None) ->
+  has_obs s EvRemoveEntity = false -> has_obs s EvRemoveRelations = false ->
+  get_batch_tables fi [] s = Ok tabs s ->
+  exists s', w_remove_entities fi [] fn s = Ok tt s' /\ St s' /\ is_locked s' = false /\
+    (forall e, live s e = true -> bo_in_tabs s tabs e ->
+       live s' e = false /\ alive s' e = false /\ forall c, val s' e c = None) /\
+    (forall e, ~ (live s e = true /\ bo_in_tabs s tabs e) -> live s' e = live s e /\ forall c, val s' e c = val s e c) /\
+    (exists es, w_log s' = w_log s ++ (if fn then map (fun e => [101%Z; Zn (fst e); Z.of_N (snd e)]) es else []) /\
+       (forall e, In e es <-> (live s e = true /\ bo_in_tabs s tabs e)) /\ (NoDup tabs -> NoDup es)) /\
+    frame_user s s' /\ length (pe (w_pool s')) = length (pe (w_pool s)).
+Proof. exact remove_entities_spec. Qed.
+
+Theorem C06_new_batch : forall s n ids vals fn,
+  St s -> room_n s n -> is_locked s = false -> (fn = true -> lock_lock (w_lock s) <> None) ->
+  has_obs s EvCreateEntity = false -> registered s ids -> NoDup ids ->
+  (forall cv, In cv vals -> In (fst cv) ids) ->
+  exists s' es, w_new_batch n ids [] vals fn s = Ok tt s' /\ St s' /\ is_locked s' = false /\
+    length es = n /\ NoDup es /\
+    (forall e, In e es -> live s e = false /\ live s' e = true /\ alive s' e = true /\
+       forall c, val s' e c = if memb c ids then Some (if fn then bo_cbval s vals c else 0%Z) else None) /\
+    (forall e, ~ In e es -> live s' e = live s e /\ forall c, val s' e c = val s e c) /\
+    w_log s' = w_log s ++ (if fn then map (fun e => [101%Z; Zn (fst e); Z.of_N (snd e)]) es else []) /\
+    frame_user s s'.
+Proof. exact new_batch_spec. Qed.
+
+Theorem C06_selection_uncached : forall s fi f tabs, St s ->
+  nth_error (w_filters s) fi = Some f -> f_cache f = None -> get_batch_tables fi [] s = Ok tabs s ->
+  forall e, live s e = true ->
+    (bo_in_tabs s tabs e -> bo_ent_matches s f e) /\
+    (tables_listed s -> bo_ent_matches s f e -> bo_in_tabs s tabs e).
+Proof. exact batch_selection_uncached. Qed.
+
+Theorem C06_selection_cached : forall s fi f cid addr ce tabs, St s -> k_cache_exact_tol s ->
+  nth_error (w_filters s) fi = Some f -> f_cache f = Some cid ->
+  entry_addr s cid = Some addr -> nth_error (w_cheap s) addr = Some ce -> ce_filter ce = fi -> In addr (w_centries s) ->
+  get_batch_tables fi [] s = Ok tabs s ->
+  NoDup tabs /\
+  forall e, live s e = true ->
+    (bo_in_tabs s tabs e -> bo_ent_matches s f e) /\
+    (tables_listed s -> bo_ent_matches s f e -> bo_in_tabs s tabs e).
+Proof. exact batch_selection_cached. Qed.
+
+Definition C06_filter_exists_is_not_enough := exchange_batch_spec_refuted.
+Definition C06_whole_ops_nonvacuous := (exchange_batch_spec_nonvacuous, remove_entities_spec_nonvacuous, new_batch_spec_nonvacuous,
+  batch_selection_cached_nonvacuous, exchange_batch_example, remove_entities_example, new_batch_example).
+
 (** Non-vacuity: a batch of 3 entities with components {0,1} (values 7), ExchangeBatch adding 2
     and removing 0: all three end with {1,2}, value of 1 kept, 2 zero. *)
 Definition c06_cfg : script_cfg :=
@@ -107,5 +197,7 @@ Example C06_example :
 Proof. vm_compute. reflexivity. Qed.
 
 Definition C06_all := (C06_table_move_is_per_entity_exchange, C06_destination_mask, C06_single_exchange,
-  C06_batch_creation, C06_new_entities, C06_new_entities_needs_a_lock_bit).
+  C06_batch_creation, C06_new_entities, C06_new_entities_needs_a_lock_bit,
+  C06_exchange_batch, C06_remove_entities, C06_new_batch, C06_selection_uncached, C06_selection_cached,
+  C06_filter_exists_is_not_enough, C06_whole_ops_nonvacuous).
 Print Assumptions C06_all.
